@@ -34,3 +34,20 @@ def prehistory(b, name, n, reserve=True, readback=False):
             if b.h[name].vals:
                 b.read(name, rng.below(len(b.h[name].vals)))
     return last
+
+
+def empty_like(v):
+    return b"" if isinstance(v, bytes) else []
+
+
+def encoded_region(b, rng, name="s"):
+    """bring a Huffman-coded composition into its *encoded* state: fill a raw region with a pool of values, merge from
+    it; returns the pool — every later push must draw from it (or be empty) to stay inside the acceptance contract"""
+    pool = [b.value() for _ in range(2 + rng.below(4))]
+    b.new("r0")
+    for v in pool:
+        b.push("r0", v, b.form_for(v))
+    b.merge(name, ["r0"])
+    if isinstance(pool[0], (bytes, list)):
+        pool.append(empty_like(pool[0]))
+    return pool
